@@ -155,9 +155,50 @@ def oracle_layout(ctx, L, args, label):
                  f"{label}: bounding_box() = {bb} although the layout has no sites")
 
 
+def hash_collision_pairs(ctx):
+    """layouts / specs that differ in ONE value whose Python hash collides with the other's (hash(-1) == hash(-2), hash(2.0**61) == hash(1.0)):
+    equality must tell them apart whatever the hash does"""
+    from bloqade.geometry.dialects.grid import Grid
+    from bloqade.shuttle.arch import ArchSpec, Layout
+    n = 0
+    colliding = [(-1.0, -2.0), (1.0, float(2 ** 61)), (0.0, float(2 ** 61 - 1) * 0.0 - 0.0)]
+    colliding = [(a, b) for a, b in colliding if a != b and hash(a) == hash(b)]
+    mk = lambda xi, yi, sx=2.0: Grid((sx,), (1.5,), xi, yi)
+    pairs = []
+    for a, b in colliding:
+        pairs += [("static zone x origin", lambda v: Layout(static_traps={"a": mk(v, 0.0)}, fillable=set(), has_cz=set(), has_local=set(), special_grid={}), a, b),
+                  ("static zone y origin", lambda v: Layout(static_traps={"a": mk(0.0, v)}, fillable=set(), has_cz=set(), has_local=set(), special_grid={}), a, b),
+                  ("special grid x origin", lambda v: Layout(static_traps={"a": mk(5.0, 5.0)}, fillable=set(), has_cz=set(), has_local=set(), special_grid={"s": mk(v, 0.0)}), a, b),
+                  ("special grid y origin", lambda v: Layout(static_traps={"a": mk(5.0, 5.0)}, fillable=set(), has_cz=set(), has_local=set(), special_grid={"s": mk(0.0, v)}), a, b)]
+        if a > 0 and b > 0:
+            pairs.append(("static zone x spacing", lambda v: Layout(static_traps={"a": mk(0.0, 0.0, v)}, fillable=set(), has_cz=set(), has_local=set(), special_grid={}), a, b))
+    L0 = Layout(static_traps={"a": mk(0.0, 0.0)}, fillable=set(), has_cz=set(), has_local=set(), special_grid={})
+    spec_pairs = [("float constant", lambda v: ArchSpec(layout=L0, float_constants={"x": v}), a, b) for a, b in colliding]
+    spec_pairs += [("int constant", lambda v: ArchSpec(layout=L0, int_constants={"n": v}), -1, -2)]
+    for what, build, a, b in pairs + spec_pairs:
+        try:
+            A, B = build(a), build(b)
+        except Exception as e:
+            ctx.hist("hash-colliding pairs", f"constructor raises {type(e).__name__}")
+            continue
+        ctx.evaluations += 1
+        n += 1
+        rep = {"collision": what, "values": [a, b]}
+        if A == B or B == A:
+            ctx.fail({"kind": "eq-vs-fields", "case": "hash-colliding values", "what": what}, rep,
+                     f"two {'specs' if 'constant' in what else 'layouts'} that differ in the {what} ({a} vs {b}, equal Python hashes) compare equal")
+        if not (A == build(a)) or hash(A) != hash(build(a)):
+            ctx.fail({"kind": "eq-but-hash-differs", "case": "hash-colliding values", "what": what}, rep, f"two identically built objects ({what}={a}) are not equal with equal hashes")
+        if isinstance(A, Layout) and ArchSpec(layout=A) == ArchSpec(layout=B):
+            ctx.fail({"kind": "archspec-eq", "case": "hash-colliding values", "what": what}, rep, f"ArchSpecs over layouts differing in the {what} compare equal")
+        ctx.nt(("collision", what, a, b))
+    ctx.count("pairs differing in one value with colliding Python hashes", n)
+
+
 def run(ctx):
     from bloqade.shuttle.arch import ArchSpec
     reflect_fields(ctx)
+    hash_collision_pairs(ctx)
     ctx.rule = ("layouts over a pool of 6 grids (incl. a view equal to its parent and a grid with an empty axis) and names a,b,c,s,t with every "
                 "field varied independently (static/special tables incl. insertion order, three name sets): all pairs for ==/hash/model, all "
                 "comparable triples for transitivity; constructor acceptance, get_zone_id of every pool grid, bounding_box; every layout returned "
